@@ -65,6 +65,30 @@ def gen_json(ctx, mode="lang", quick=None, incomplete=False):
     return rows
 
 
+DEPTHS = (31, 32, 33, 63, 64, 65, 70)
+
+
+def deep_docs(fmt):
+    """Documents nested deeper than the parsers' pre-allocated stacks (32 / 64 entries)."""
+    docs = []
+    for d in DEPTHS:
+        if fmt == "json":
+            docs.append(list(b"[" * d + b"1" + b"]" * d))
+            docs.append(list(b'{"a":' * d + b'"x"' + b"}" * d))
+            docs.append(list((b'[{"k":' * (d // 2)) + b"null" + (b"}]" * (d // 2))))
+        elif fmt == "cborl":
+            docs.append([0x81] * d + [0x01])
+            docs.append([0x9f] * d + [0x01] + [0xff] * d)
+            docs.append([0xa1, 0x61, 0x61] * d + [0xf6])
+            docs.append(([0xbf, 0x61, 0x6b, 0x82, 0x00]) * (d // 2) + [0x20] + [0xff] * (d // 2))
+        else:
+            docs.append([0x5b] * d + [0x69, 1] + [0x5d] * d)
+            docs.append([0x5b, 0x23, 0x69, 1] * d + [0x54])
+            docs.append([0x7b, 0x69, 1, 0x61] * d + [0x5a] + [0x7d] * d)
+            docs.append([0x5b, 0x24, 0x5b, 0x23, 0x69, 1] * (d // 2) + [0x24, 0x69, 0x23, 0x69, 1, 5])
+    return docs
+
+
 def conformance_cases(ctx, prop, fmt, rows):
     """Every document through the one-shot Parse and through one more entry point (rotating): the value a parser
     reports must be the reference value whichever way the bytes arrive."""
@@ -80,6 +104,12 @@ def conformance_cases(ctx, prop, fmt, rows):
             if e in ("reader", "decreader"):
                 kw["eofwith"] = (n // 4) % 2 == 0
             cases.append(case(prop, "parse", fmt, doc=r["doc"], entry=e, origin=org + " via " + e, **kw))
+        if n % 9 == 0:
+            cases.append(case(prop, "parse", fmt, doc=r["doc"], entry="parsestr", origin=org + " via ParseString"))
+    for n, doc in enumerate(deep_docs(fmt)):
+        cases.append(case(prop, "parse", fmt, doc=doc, origin="deep nesting"))
+        e = other[n % 4]
+        cases.append(case(prop, "parse", fmt, doc=doc, entry=e, origin="deep nesting via " + e, **sched_variants(ctx, doc, e, rnd)))
     return cases
 
 
@@ -307,6 +337,22 @@ def c02(ctx):
                 sub = dict(mode="list", cutlists=cl, entries=entries)
                 nsched += len(cl) * len(entries) + 1
             cases.append(case("C02", "sched", fmt, doc=doc, sub=sub, origin="%s %s" % (r["class"], r["why"])))
+        # tokens around the size of the internal buffers, and nesting beyond the pre-allocated stacks
+        extra = [d for d in deep_docs(fmt) if len(d) <= 140]
+        maxdoc = 600
+        # ... and lengths whose byte value is a structural marker of a binary format ('#' '$' 'N' '[' ']' '{' '}', CBOR break)
+        for L in ((35, 36, 78, 91, 93, 123, 125, 255) if fmt != "json" else ()):
+            extra.append(enc_doc(fmt, {"k" * L: "v"}))
+            extra.append(enc_doc(fmt, ["s" * L, {"q": "r" * L}]))
+        for L in (62, 63, 64, 65, 66, 130):
+            extra.append(enc_doc(fmt, {"k" * L: "v" * L}))
+            extra.append(enc_doc(fmt, ["e\\n" + "s" * L, "t" * L]))
+        for doc in extra:
+            n = len(doc)
+            cl = [[i] for i in range(1, n)] + [sorted(rnd.sample(range(1, n), 2)) for _ in range(150 if ctx.quick else 800)]
+            cl += [sorted(rnd.sample(range(1, n), rnd.randint(3, 9))) for _ in range(40 if ctx.quick else 200)] + [list(range(1, n))]
+            cases.append(case("C02", "sched", fmt, doc=doc, sub=dict(mode="list", cutlists=cl, entries=entries), origin="boundary length / deep nesting"))
+            nsched += len(cl) * len(entries) + 1
     number(cases)
     tf, st = core.run_harness(ctx, cases, deadline=20000)
     failed, n = core.tlc_validate(ctx, "TraceCodec", tf)
